@@ -222,7 +222,8 @@ def gen_art(rng, small=True, with_opts=True):
     rows = rng.choice((1, 2, 5, 25)) if small else rng.randint(1, 255)
     if rng.random() < 0.1:
         # header bytes at the byte/sign boundaries: very wide or very tall art
-        cb, rows = rng.choice(((127, 2), (128, 1), (255, 1), (1, 255), (2, 128), (33, 193)))
+        cb, rows = rng.choice(((127, 2), (128, 1), (255, 1), (1, 255), (2, 128), (33, 193),
+                               (5, 0), (0, 5), (0, 0)))      # empty art: no rows or no columns
     s = rng.choice((0, 0, 3, rng.randint(0, 20))) if with_opts else 0
     opts = ([mode] if mode else []) + ["-newsroom"]
     if s:
